@@ -298,6 +298,10 @@ class _Callback(object):
         self.calls.append((bc, list(ops)))
 
 
+class _StorageFault(OSError):
+    pass
+
+
 class _Inst(object):
     def __init__(self):
         self.sut = None
@@ -319,7 +323,7 @@ class _Inst(object):
             import errno as _errno
             e, self.fail_next_persist = self.fail_next_persist, None
             self.persist_faulted = True
-            raise OSError(getattr(_errno, e), "simulated storage error while persisting locked headers")
+            raise _StorageFault(getattr(_errno, e), "simulated storage error while persisting locked headers")
         del self.durable[old_length:]
         self.durable.extend(items)
 
@@ -751,9 +755,7 @@ def _lock(ctx, ids, inst, st):
         finally:
             storage_fault = inst.fail_next_persist is None and bool(st.get("persist_fault")) and index > before
             inst.fail_next_persist = None
-    except OSError as e:
-        if not storage_fault:
-            raise
+    except _StorageFault:
         # the store refused the new entries.  Whether the lock then counts in memory is the tracker's choice (the durable
         # prefix is what a restart sees); what it may not do is end up describing a chain nobody delivered
         ctx.fault("lock_persist_error")
